@@ -76,14 +76,19 @@ type c09Script struct {
 	complete int // number of leading events of the logical stream that have been transmitted completely
 	started  bool
 	// observations
-	lastIDs   []string // Last-Event-ID presented on each resume
-	expected  []string // what it should have been
-	fails     int      // consecutive failed/unproductive reconnect outcomes the script dealt
-	maxFails  int
-	saw404    bool
-	gets      int
-	badResume string
-	standGETs int
+	lastIDs  []string // Last-Event-ID presented on each resume
+	expected []string // what it should have been
+	fails    int      // consecutive failed/unproductive reconnect outcomes the script dealt
+	maxFails int
+	// the two budgets the transport documents, counted separately: consecutive failed attempts
+	// of one reconnect (transport error / transient status), and consecutive response bodies
+	// that brought no new complete event
+	connFails, maxConnFails int
+	noProg, maxNoProg       int
+	saw404                  bool
+	gets                    int
+	badResume               string
+	standGETs               int
 	// clean ends of stream that fall inside an event (class of the position), in order
 	eofMidEvent []string
 }
@@ -182,9 +187,13 @@ func (s *c09Script) serve(from int, cutMenu string) *http.Response {
 	if k < len(full) && !progressed {
 		s.fails++ // a cut that transmitted no new complete event is an unproductive attempt
 		s.maxFails = max(s.maxFails, s.fails)
+		s.noProg++
+		s.maxNoProg = max(s.maxNoProg, s.noProg)
 	} else {
 		s.fails = 0
+		s.noProg = 0
 	}
+	s.connFails = 0
 	body := &c09Body{data: []byte(full[:k])}
 	if kind == 1 && k < len(full) {
 		body.err = io.ErrUnexpectedEOF
@@ -262,6 +271,9 @@ func (s *c09Script) roundTrip(req *http.Request, n int) (*http.Response, error) 
 		if s.o.emptyResumes {
 			s.fails++
 			s.maxFails = max(s.maxFails, s.fails)
+			s.noProg++
+			s.maxNoProg = max(s.maxNoProg, s.noProg)
+			s.connFails = 0
 			return s.resp(200, "text/event-stream", io.NopCloser(strings.NewReader(""))), nil
 		}
 		outcome := 0
@@ -277,10 +289,14 @@ func (s *c09Script) roundTrip(req *http.Request, n int) (*http.Response, error) 
 		case 1:
 			s.fails++
 			s.maxFails = max(s.maxFails, s.fails)
+			s.connFails++
+			s.maxConnFails = max(s.maxConnFails, s.connFails)
 			return nil, errC09Net
 		case 2:
 			s.fails++
 			s.maxFails = max(s.maxFails, s.fails)
+			s.connFails++
+			s.maxConnFails = max(s.maxConnFails, s.connFails)
 			return s.resp(503, "", nil), nil
 		case 3:
 			s.saw404 = true
@@ -408,13 +424,14 @@ func c09Run(o c09Opts, ch *verifx.Chooser) (obs, bad, sig string, steps int) {
 					gotID = true
 				}
 			}
-			// MaxRetries is the number of reconnect attempts: that many consecutive failures exhaust it
-			justified := !gotID || sc.saw404 || sc.maxFails >= budget
+			// MaxRetries is the number of attempts of one reconnect: that many consecutive failed attempts
+			// exhaust it; and more than MaxRetries consecutive bodies without progress end the stream
+			justified := !gotID || sc.saw404 || sc.maxConnFails >= budget || sc.maxNoProg > budget
 			if !justified {
-				fail("call-fails-although-resumable", "the call failed with %v although events carry ids, no 404 was served and at most %d consecutive reconnect attempts failed (budget %d); resumes %v", callErr, sc.maxFails, budget, sc.lastIDs)
+				fail("call-fails-although-resumable", "the call failed with %v although events carry ids, no 404 was served, at most %d consecutive attempts of one reconnect failed and at most %d consecutive bodies brought no progress (budget %d each); resumes %v", callErr, sc.maxConnFails, sc.maxNoProg, budget, sc.lastIDs)
 			}
 		}
-	} else if o.ids && !sc.saw404 && sc.maxFails < budget && bad == "" {
+	} else if o.ids && !sc.saw404 && sc.maxConnFails < budget && sc.maxNoProg <= budget && bad == "" {
 		if len(delivered) != nNotes {
 			fail("message-lost", "standalone stream: only notifications %v were delivered although every reconnect within the budget succeeded (resumes %v)", delivered, sc.lastIDs)
 		}
